@@ -21,9 +21,6 @@ from .util import *
 
 R_GAS = 8.314472                       # the constants as documented in arrhenius.py / eyring.py
 KB_OVER_H = 2.083664399411865234375e10
-KNOWN_LOG10_SYMPY = 'Log10:sympy-has-no-log10'
-KNOWN_RDIV = 'UnaryWrapper:rtruediv-is-not-division'
-KNOWN_KWARGS = 'Expr:reaction-keyword-not-forwarded-to-nested-arguments'
 DROPS = ('Poly', 'Piecewise', 'GibbsEqConst', 'EyringHS', 'Radiolytic')
 NEEDS_RXN = ('MassAction', 'Eyring', 'EyringHS')
 
@@ -467,6 +464,8 @@ def _zero(z):
     if z['t'] == 'new' and z['k']['c'] == 'Constant' and z['args']:
         kids = z['args']['l'] if 'l' in z['args'] else [z['args']['s']]
         return len(kids) == 1 and kids[0]['t'] == 'num' and kids[0]['v'] == 0
+    if z['t'] == 'op' and z['o'] == 'mul' and not (z['a']['t'] in ('num', 'str') and z['b']['t'] in ('num', 'str')):
+        return _zero(z['a']) or _zero(z['b'])       # `trivially_zero` of a product
     return False
 
 
@@ -814,6 +813,10 @@ class C16(Property):
                     if (side == 'b' and p['o'] == 'sub' and q['t'] == 'new' and q['k']['c'] == 'MassAction' and q['args'] and 'l' in q['args']
                             and len(q['args']['l']) == 1 and q['args']['l'][0]['t'] == 'num' and isinstance(q['args']['l'][0]['v'], Fraction)):
                         raise Skip('x - MassAction([Fraction]): the Fraction meets _implicit_conversion in `other == other*0`')
+            if p['o'] in ('mul', 'div') and self._is_ma(p):
+                # UnaryWrapper (test_rates.py::test_MassAction__expression): arithmetic with a MassAction acts on its rate
+                # coefficient -- `x / MassAction(k)` IS MassAction(x / k) -- the result is again a MassAction
+                return self.coefficient(p, vars_, rxn, be) * self._concprod(vars_, rxn)
             a = M(p['a'])
             if p['o'] == 'neg':
                 return -a
@@ -978,6 +981,42 @@ class C16(Property):
             return be.exp(args[0])
         raise Skip('class ' + c)
 
+    @staticmethod
+    def _concprod(vars_, rxn):
+        if not isinstance(rxn, list):
+            raise Skip('no reaction')
+        r = 1
+        for k, v in rxn:
+            if k not in vars_:
+                raise Skip('missing variable')
+            r = r * vars_[k] ** v
+        return r
+
+    def coefficient(self, p, vars_, rxn, be):
+        """rate coefficient of a program that builds a MassAction instance"""
+        p = _strip(p)
+        M = lambda q: self.meaning(q, vars_, rxn, be)
+        if p['t'] == 'op' and p['o'] in ('mul', 'div'):
+            a, b = p['a'], p['b']
+            if self._is_ma(a):
+                ka, vb = self.coefficient(a, vars_, rxn, be), M(b)
+                if p['o'] == 'mul':
+                    return ka * vb
+                if vb == 0:
+                    raise Skip('division by zero')
+                return ka / vb
+            va, kb = M(a), self.coefficient(b, vars_, rxn, be)
+            if p['o'] == 'mul':
+                return kb * va
+            if kb == 0:
+                raise Skip('division by zero')
+            return va / kb
+        cp = self._concprod(vars_, rxn)
+        v = M(p)
+        if cp == 0:
+            raise Skip('zero concentration product')
+        return v / cp
+
     def _eq(self, mode, got, want, tol=None):
         tol = tol or self.float_tol
         if hasattr(got, 'magnitude'):
@@ -1046,8 +1085,6 @@ class C16(Property):
         try:
             sexpr = real.call(obj, syms, rxn, sympy)
         except Exception as e:
-            if has_log10 and isinstance(e, AttributeError) and 'log10' in str(e):
-                return 'sympy backend: Log10 raised AttributeError (%s)' % str(e)[:80]
             return 'sympy backend: %s raised %s (%s); arithmetic meaning %r' % (real.show(obj)[:200], exc_name(e), str(e)[:80], want)
         try:
             sub = {syms[n]: (sympy.Rational(v.numerator, v.denominator) if mode == 'rat' else sympy.Float(v, 40)) for n, v in vars_.items()}
@@ -1286,14 +1323,6 @@ class C16(Property):
         return False
 
     def known_key(self, c, failure):
-        if c.get('kind') == 'tree' and isinstance(failure, str) and ('raised AttributeError' in failure or 'raised KeyError' in failure) \
-                and isinstance(c['rxn'], list) and self._dropped_rxn(c['prog']):
-            return KNOWN_KWARGS
-        if c.get('kind') == 'tree' and isinstance(failure, str) and failure.startswith('backend math:') and 'evaluates to' in failure \
-                and self._has_rdiv(c):
-            return KNOWN_RDIV
-        if isinstance(failure, str) and failure.startswith('sympy backend: Log10 raised AttributeError'):
-            return KNOWN_LOG10_SYMPY
         return None
 
     def classify(self, c):
